@@ -9,7 +9,7 @@
 (*   cancel_port_forward.                                                              *)
 (* Two layers of state: the handler flags the CODE keeps (x11H, agentH, tcpH) and      *)
 (* ghost variables recording what the client asked for in the sense of the STATEMENT   *)
-(* (x11Req: an X11 request was made; agentReq: agent forwarding was requested;         *)
+(* (x11Req: an X11 request was GRANTED; agentReq: agent forwarding was requested;         *)
 (* fwd: the port forwards that were granted and not cancelled).  The property is       *)
 (* written over the ghosts, the transitions over the flags.                            *)
 EXTENDS Naturals, Sequences, FiniteSets, TLC
@@ -20,6 +20,8 @@ CONSTANTS GlobalKinds,     \* names a server may put in GLOBAL_REQUEST
           Ports,           \* port forwards the client may ask for (tokens; "p0" is rendered as a request for port 0:
                            \* the server allocates the port and the client cancels with the allocated number)
           AcceptSession,   \* mutation: _parse_channel_open lets a "session" open through (FALSE = code as read)
+          X11HandlerEarly, \* mutation: request_x11 installs the handler before the request is sent and never rolls it back
+                           \* (FALSE = code as read: installed after the server's CHANNEL_SUCCESS)
           ApproveExec      \* mutation: _handle_request approves "exec" without a server object (FALSE = code as read)
 
 X11 == "x11"  AGENT == "auth-agent@openssh.com"  FWD == "forwarded-tcpip"
@@ -35,44 +37,49 @@ VARIABLES authed,                    \* the client authenticated
           hadFwd,                    \* ghost: the forwards granted at some time (separates "never enabled" from "cancelled")
           refusedLast,               \* ghost: the client's most recent forwarding operation (request or cancel) was a request
                                      \* the server refused (a refusal enables nothing, whatever was granted or cancelled before it)
+          x11Out,                    \* ghost: how the most recent X11 request ended: "none" | "granted" | "refused" | "closed"
+                                     \* (closed = the channel went away while request_x11 was waiting for the reply)
           subsysReg,                 \* client configuration: a subsystem handler is registered (Transport.set_subsystem_handler);
                                      \* it is for server mode and must change nothing about what a client answers
           last                       \* the last step and what the client answered
-vars == <<authed, chan, x11H, agentH, tcpH, x11Req, agentReq, fwd, hadFwd, refusedLast, subsysReg, last>>
+vars == <<authed, chan, x11H, agentH, tcpH, x11Req, agentReq, fwd, hadFwd, refusedLast, subsysReg, x11Out, last>>
 
 NoReply == "none"
 Obs(op, arg, flag, reply, accepted) == [op |-> op, arg |-> arg, flag |-> flag, reply |-> reply, accepted |-> accepted]
 
 Init == /\ authed = FALSE /\ chan = FALSE
         /\ x11H = FALSE /\ agentH = FALSE /\ tcpH = FALSE
-        /\ x11Req = FALSE /\ agentReq = FALSE /\ fwd = {} /\ hadFwd = {} /\ refusedLast = FALSE /\ subsysReg = FALSE
+        /\ x11Req = FALSE /\ agentReq = FALSE /\ fwd = {} /\ hadFwd = {} /\ refusedLast = FALSE /\ subsysReg = FALSE /\ x11Out = "none"
         /\ last = Obs("init", "", FALSE, NoReply, FALSE)
 
 (* ---------------- client operations (user thread) ---------------- *)
 Authenticate == /\ ~authed /\ authed' = TRUE
                 /\ last' = Obs("auth", "", FALSE, NoReply, FALSE)
-                /\ UNCHANGED <<chan, x11H, agentH, tcpH, x11Req, agentReq, fwd, hadFwd, refusedLast, subsysReg>>
+                /\ UNCHANGED <<chan, x11H, agentH, tcpH, x11Req, agentReq, fwd, hadFwd, refusedLast, subsysReg, x11Out>>
 
 OpenSession == /\ authed /\ chan' = TRUE
                /\ last' = Obs("open_session", "", FALSE, NoReply, FALSE)
-               /\ UNCHANGED <<authed, x11H, agentH, tcpH, x11Req, agentReq, fwd, hadFwd, refusedLast, subsysReg>>
+               /\ UNCHANGED <<authed, x11H, agentH, tcpH, x11Req, agentReq, fwd, hadFwd, refusedLast, subsysReg, x11Out>>
 
 \* Channel.request_x11: x11-req with want_reply; the handler is installed only after the server's
 \* CHANNEL_SUCCESS; a CHANNEL_FAILURE closes the channel (Channel._request_failed) and raises
-RequestX11(granted) ==
+\* out: "granted" | "refused" (CHANNEL_FAILURE) | "closed" (the channel is closed while the client waits)
+RequestX11Out(out) ==
   /\ chan
-  /\ x11Req' = TRUE
-  /\ x11H' = (x11H \/ granted)
-  /\ chan' = granted
-  /\ last' = Obs("x11", "", granted, NoReply, FALSE)
+  /\ x11Req' = (x11Req \/ out = "granted")        \* X11 forwarding is enabled by a GRANTED request only
+  /\ x11H' = (x11H \/ out = "granted" \/ X11HandlerEarly)
+  /\ chan' = (out = "granted")
+  /\ x11Out' = out
+  /\ last' = Obs(IF out = "closed" THEN "x11closed" ELSE "x11", "", out = "granted", NoReply, FALSE)
   /\ UNCHANGED <<authed, agentH, tcpH, agentReq, fwd, hadFwd, refusedLast, subsysReg>>
+RequestX11(granted) == RequestX11Out(IF granted THEN "granted" ELSE "refused")
 
 \* Channel.request_forward_agent: no reply is asked for; the handler is installed at once
 RequestAgent ==
   /\ chan
   /\ agentReq' = TRUE /\ agentH' = TRUE
   /\ last' = Obs("agent", "", FALSE, NoReply, FALSE)
-  /\ UNCHANGED <<authed, chan, x11H, tcpH, x11Req, fwd, hadFwd, refusedLast, subsysReg>>
+  /\ UNCHANGED <<authed, chan, x11H, tcpH, x11Req, fwd, hadFwd, refusedLast, subsysReg, x11Out>>
 
 \* Transport.request_port_forward: tcpip-forward global request answered by the server with REQUEST_SUCCESS
 \* (granted) or REQUEST_FAILURE; the handler is installed only when granted, a refused request raises and
@@ -85,7 +92,7 @@ RequestPortForward(p, granted) ==
   /\ hadFwd' = IF granted THEN hadFwd \cup {p} ELSE hadFwd
   /\ refusedLast' = ~granted
   /\ last' = Obs("fwd", p, granted, NoReply, FALSE)
-  /\ UNCHANGED <<authed, chan, x11H, agentH, x11Req, agentReq, subsysReg>>
+  /\ UNCHANGED <<authed, chan, x11H, agentH, x11Req, agentReq, subsysReg, x11Out>>
 
 \* Transport.cancel_port_forward: the (single) handler is dropped before the request is sent - also when another
 \* forward is still active (the statement allows refusing then; a tree that keeps the handler while fwd' # {} shows up
@@ -95,19 +102,19 @@ CancelPortForward(p) ==
   /\ fwd' = fwd \ {p}
   /\ hadFwd' = hadFwd /\ refusedLast' = FALSE
   /\ last' = Obs("cancel", p, FALSE, NoReply, FALSE)
-  /\ UNCHANGED <<authed, chan, x11H, agentH, x11Req, agentReq, subsysReg>>
+  /\ UNCHANGED <<authed, chan, x11H, agentH, x11Req, agentReq, subsysReg, x11Out>>
 
 \* Transport.set_subsystem_handler(name, handler): fills subsystem_table
 RegisterSubsystem ==
   /\ subsysReg' = TRUE
   /\ last' = Obs("subsys", "", FALSE, NoReply, FALSE)
-  /\ UNCHANGED <<authed, chan, x11H, agentH, tcpH, x11Req, agentReq, fwd, hadFwd, refusedLast>>
+  /\ UNCHANGED <<authed, chan, x11H, agentH, tcpH, x11Req, agentReq, fwd, hadFwd, refusedLast, x11Out>>
 
 (* ---------------- server-initiated events (transport thread of the client) ---------------- *)
 \* _parse_global_request, `if not self.server_mode: ok = False`
 GlobalRequest(kind, wantReply) ==
   /\ last' = Obs("global", kind, wantReply, IF wantReply THEN "REQUEST_FAILURE" ELSE NoReply, FALSE)
-  /\ UNCHANGED <<authed, chan, x11H, agentH, tcpH, x11Req, agentReq, fwd, hadFwd, refusedLast, subsysReg>>
+  /\ UNCHANGED <<authed, chan, x11H, agentH, tcpH, x11Req, agentReq, fwd, hadFwd, refusedLast, subsysReg, x11Out>>
 
 HandlerFor(kind) == \/ (kind = AGENT /\ agentH)
                     \/ (kind = X11 /\ x11H)
@@ -116,7 +123,7 @@ HandlerFor(kind) == \/ (kind = AGENT /\ agentH)
 \* _parse_channel_open
 ChannelOpen(kind) ==
   /\ last' = Obs("open", kind, FALSE, IF HandlerFor(kind) THEN "OPEN_SUCCESS" ELSE "OPEN_FAILURE", HandlerFor(kind))
-  /\ UNCHANGED <<authed, chan, x11H, agentH, tcpH, x11Req, agentReq, fwd, hadFwd, refusedLast, subsysReg>>
+  /\ UNCHANGED <<authed, chan, x11H, agentH, tcpH, x11Req, agentReq, fwd, hadFwd, refusedLast, subsysReg, x11Out>>
 
 Approved(type) == type \in Harmless \/ (ApproveExec /\ type = "exec")
 \* Channel._handle_request on a channel the client opened (server_object is None)
@@ -124,10 +131,10 @@ ChannelRequest(type, wantReply) ==
   /\ chan
   /\ last' = Obs("chanreq", type, wantReply,
                  IF ~wantReply THEN NoReply ELSE IF Approved(type) THEN "CHANNEL_SUCCESS" ELSE "CHANNEL_FAILURE", FALSE)
-  /\ UNCHANGED <<authed, chan, x11H, agentH, tcpH, x11Req, agentReq, fwd, hadFwd, refusedLast, subsysReg>>
+  /\ UNCHANGED <<authed, chan, x11H, agentH, tcpH, x11Req, agentReq, fwd, hadFwd, refusedLast, subsysReg, x11Out>>
 
 ClientOp == \/ Authenticate \/ OpenSession \/ RequestAgent \/ RegisterSubsystem
-            \/ \E g \in BOOLEAN : RequestX11(g)
+            \/ \E o \in {"granted", "refused", "closed"} : RequestX11Out(o)
             \/ \E p \in Ports, g \in BOOLEAN : RequestPortForward(p, g)
             \/ \E p \in Ports : CancelPortForward(p)
 ServerEvent == \/ \E k \in GlobalKinds, w \in BOOLEAN : GlobalRequest(k, w)
@@ -141,6 +148,7 @@ Step(op, arg, flag) ==
   CASE op = "auth" -> Authenticate
     [] op = "open_session" -> OpenSession
     [] op = "x11" -> RequestX11(flag)
+    [] op = "x11closed" -> RequestX11Out("closed")
     [] op = "agent" -> RequestAgent
     [] op = "fwd" -> RequestPortForward(arg, flag)
     [] op = "cancel" -> CancelPortForward(arg)
